@@ -12,6 +12,7 @@ The translator type-checks the package and lists every `range` over a map with w
 its body does, breaks the theorem.
 -/
 import Ggql.Gen.MapOrder
+import Ggql.Gen.Dispatch
 namespace Ggql.MapOrder
 
 /-- the reviewed loops; every one not `sorted-keys` carries the reason the order cannot reach a response -/
@@ -27,7 +28,6 @@ def reviewed : List (String × String × String) :=
    ("Input.CoerceIn", "tv", "none"),                              -- copies the entries into a new map
    ("Root.ParseFS", "fileSet", "append+return"),                  -- concatenates the files into ONE document, whose definition order is immaterial (C16_perm); only line numbers of errors move
    ("Root.ResolveExecutable", "exe.Ops", "break"),                -- taken only when the map has exactly one entry
-   ("Root.ResolveExecutable", "subMap", "none"),                  -- registers the subscriptions of one request: their relative delivery order is not part of a response
    ("Root.formArgs", "fd.args.dict", "none"),                     -- fills a set (map) of required names
    ("Root.replaceArgVars", "tv", "sorted-keys"),
    ("Root.validateDirUse", "du.Args", "sorted-keys"),
@@ -45,5 +45,9 @@ theorem C12_map_order : Gen.mapRanges = reviewed := by decide
 theorem C12_map_order_exposed :
     (Gen.mapRanges.filter (fun s => s.2.2 != "sorted-keys" && s.2.2 != "none")).map (·.1) =
       ["Root.ParseFS", "Root.ResolveExecutable", "VerifParseExe"] := by decide
+
+/-- the loop that registered the subscriptions of one request in map order (D81: C19 prescribes registration
+order) is gone: they are registered in the order the fields are written -/
+theorem C19_registration_not_by_map : Gen.subOrderByMap = false := by decide
 
 end Ggql.MapOrder
